@@ -343,3 +343,44 @@ def records_as_given(index: RepoIndex, rep, rule: str, names=('State', 'Observat
                   f'(`{bad[0][2] if bad else ""}`): the {cname.lower()} the environment hands out '
                   f'is not the one its components built (shape, cells or agent differ)',
                   f'{cname} is a plain record')
+
+
+def draw_helpers_always_draw(index: RepoIndex, rep, rule: str) -> None:
+    """the drawing helpers of rng.py (`choice`, `choices`, `shuffle`, and any added later) are
+    thin wrappers of one numpy draw: a helper that answers a value *without* drawing on some
+    path (`if low == high: return low`) answers where numpy would have raised ValueError for
+    an empty range -- the only refusal some reset functions have -- and leaves the stream where
+    it was.  Every return of a value (other than None) is preceded by a draw on its path."""
+    from ..guards import prop_implies
+    rel = 'gym_gridverse/rng.py'
+    mod = index.module(rel)
+    n = 0
+    for name, f in sorted(mod.functions.items()):
+        ps = [a.arg for a in f.node.args.args + f.node.args.kwonlyargs]
+        if 'rng' not in ps:
+            continue
+        w = walk_function(f.node)
+        draws = [e for e in w.events if e.kind == 'call' and
+                 isinstance(e.node.func, ast.Attribute) and src(e.node.func.value) == 'rng']
+        if not draws:
+            continue
+        n += 1
+        bad = []
+        for r in (e for e in w.events if e.kind == 'return' and e.value is not None):
+            if isinstance(r.value, ast.Constant) and r.value.value is None:
+                continue
+            before = [d for d in draws if d.order <= r.order]
+            ok = any(prop_implies(strip_iter(r.guard), strip_iter(d.guard)) is None
+                     for d in before)
+            if not ok:
+                bad.append(r)
+        rep.check(not bad, rule, rel, name, f.node.lineno,
+                  '; '.join(src(b.stmt)[:60] for b in bad) or f'{name} draws on every path',
+                  f'{name} returns `{src(bad[0].value)[:40] if bad else ""}` under '
+                  f'`{show(strip_iter(bad[0].guard))[:60] if bad else ""}` without drawing: where '
+                  f'the numpy draw it wraps would raise ValueError (an empty range: a room '
+                  f'without interior, no free cell) it now answers, and the reset function '
+                  f'built on it returns a malformed state instead of refusing',
+                  f'{name}: a value only after a draw')
+    if n < 3:
+        raise AnalysisError(f'rng.py: {n} drawing helpers found, floor is 3')
